@@ -5,8 +5,8 @@ package main
 
 import (
 	"database/sql"
-	"encoding/json"
 	"database/sql/driver"
+	"encoding/json"
 	"fmt"
 	"reflect"
 	"strconv"
